@@ -13,7 +13,7 @@ PROPERTY = "C01"
 LEVEL = "exploration"
 BUDGET_S = {"quick": 45, "thorough": 600}
 FLOOR = {"quick": 4000, "thorough": 40000}
-MUST_REACH = ("ace_constructed", "rendered_line_reread")
+MUST_REACH = ("ace_constructed", "rendered_line_reread", "standard_aces")
 RULE = ("grammar-generated extended ACE texts in every accepted spelling (names/numbers, host vs /32 vs zero wildcard, "
         "any vs all-ones wildcard vs /0, dirty bases, non-contiguous masks k<=4, 5 port operators incl. empty "
         "denotations, eq/neq with 1..10 operands on IOS, flag/log tokens, sequence 0/1/2^32-1, whitespace variants) x "
@@ -80,7 +80,10 @@ def execute(ctx, case: dict) -> None:
     text = case["text"]
     platform, version = case["platform"], case["version"]
     kwargs = dict(platform=platform, version=version, port_nr=case["port_nr"], protocol_nr=case["protocol_nr"])
-    want = reader.read_ace(text, "extended")
+    acl_type = case.get("type", "extended")
+    if acl_type == "standard":
+        kwargs["type"] = "standard"
+    want = reader.read_ace(text, acl_type)
     try:
         ace = Ace(text, **kwargs)
     except Exception as ex:  # pylint: disable=broad-except
@@ -91,7 +94,7 @@ def execute(ctx, case: dict) -> None:
     problems = check_ace_against(ctx, case, ace, want, "parsed fields")
     line = ace.line
     try:
-        again = reader.read_ace(line, "extended")
+        again = reader.read_ace(line, acl_type)
     except reader.ReadError as ex:
         problems.append(f"rendered line {line!r} is not readable Cisco syntax: {ex}")
     else:
@@ -101,7 +104,7 @@ def execute(ctx, case: dict) -> None:
         if reader.meaning_full(again) != reader.meaning_full(want):
             problems.append(f"rendered line {line!r} means {reader.meaning_full(again)}, input means "
                             f"{reader.meaning_full(want)}")
-        bad = reader.validate_ace_line(line, platform, "extended",
+        bad = reader.validate_ace_line(line, platform, acl_type,
                                        lambda p: grammar.port_vocab(p, platform, version),
                                        grammar.proto_out_vocab(platform))
         for item in bad:
@@ -170,6 +173,21 @@ def run(ctx) -> None:
     while done < n_max and not ctx.expired():
         platform = rng.choice(grammar.PLATFORMS)
         version = rng.choice(grammar.VERSIONS)
+        if platform == "ios" and rng.random() < 0.06:
+            # standard ACE (IOS): permit/deny + source address in every spelling + optional log
+            addr = grammar.gen_addr(rng, "ios", allow_group=False, max_k=3)
+            text = addr["text"]
+            if addr["form"] == "host" and text.startswith("host ") and rng.random() < 0.4:
+                text = text.split()[1]  # bare host
+            seq = rng.choice([0, 0, 10, 4294967295])
+            line = grammar.messy(rng, (f"{seq} " if seq else "") + f"{rng.choice(['permit', 'deny'])} {text}" + rng.choice(["", "", " log"]))
+            case = {"text": line, "platform": "ios", "version": version, "port_nr": rng.random() < 0.3,
+                    "protocol_nr": rng.random() < 0.3, "type": "standard"}
+            execute(ctx, case)
+            ctx.count("standard_aces")
+            ctx.judged(sig=("standard", addr["form"], addr["native"], bool(seq), "log" in line), nontrivial=True)
+            done += 1
+            continue
         gen = grammar.gen_ace(rng, platform, version)
         _run_generated(ctx, gen, platform, version, rng.random() < 0.4, rng.random() < 0.4)
         done += 1
